@@ -287,9 +287,9 @@ type FixedProtos []string
 
 func (f FixedProtos) Get(c *bfe_tls.Conn) []string { return []string(f) }
 
-type FixedRule struct{ r *bfe_tls.Rule }
+type FixedRule struct{ R *bfe_tls.Rule }
 
-func (f FixedRule) Get(c *bfe_tls.Conn) *bfe_tls.Rule { return f.r }
+func (f FixedRule) Get(c *bfe_tls.Conn) *bfe_tls.Rule { return f.R }
 
 type MapCache map[string][]byte
 
@@ -337,7 +337,7 @@ func BuildConfig(k *Kase) (*bfe_tls.Config, MapCache) {
 		cfg.ServerSessionCache = cache
 	}
 	if k.RuleOn {
-		cfg.ServerRule = FixedRule{&bfe_tls.Rule{NextProtos: FixedProtos(k.RuleNp), Grade: k.Grade,
+		cfg.ServerRule = FixedRule{R: &bfe_tls.Rule{NextProtos: FixedProtos(k.RuleNp), Grade: k.Grade,
 			ClientAuth: k.RuleCA, Chacha20: k.RuleChacha}}
 	}
 	return cfg, cache
